@@ -328,3 +328,46 @@ Theorem C07_scale_shift_denotes : forall x0 s t tl,
   stage_den (x0 :: s :: t :: tl) (st_scale_shift (P 0) (P 1) true) (cm_scale_shift s t).
 Proof. exact den_scale_shift. Qed.
 Print Assumptions C07_scale_shift_denotes.
+
+(* prime priors of Angle / ToCartesian / AnglePair: the densities of the original space are the derivatives of their
+   distribution functions; the formulas of nessai/priors.py at the image of a point equal log p(x) - log_J (+ constant);
+   the expressions evaluated by the tie denote log p(x) - log_J *)
+Theorem C07_chi2_is_density : forall r, 0 < r ->
+  is_derive (fun t => 1 - exp (- (t * t) / 2)) r (exp (chi2_logpdf r)).
+Proof. exact chi2_is_density. Qed.
+Print Assumptions C07_chi2_is_density.
+
+Theorem C07_sine_is_density : forall a, 0 < a < PI ->
+  is_derive (fun t => (1 - cos t) / 2) a (exp (sine_logpdf a)) /\ (1 - cos 0) / 2 = 0 /\ (1 - cos PI) / 2 = 1.
+Proof. exact sine_is_density. Qed.
+Print Assumptions C07_sine_is_density.
+
+Theorem C07_prime_prior_polar_uniform : forall s th r k,
+  prior2d (polar_x s th r) (polar_y s th r) k = chi2_logpdf r - ln r - ln k.
+Proof. exact prime_prior_polar_uniform. Qed.
+Print Assumptions C07_prime_prior_polar_uniform.
+
+Theorem C07_prime_prior_polar_sine : forall s th r, 0 < r -> 0 < sin (s * th) ->
+  prior2d_sine (polar_x s th r) (polar_y s th r) = (sine_logpdf (s * th) + chi2_logpdf r) - ln r.
+Proof. exact prime_prior_polar_sine. Qed.
+Print Assumptions C07_prime_prior_polar_sine.
+
+Theorem C07_prime_prior_sphere : forall a v r, 0 < r ->
+  (0 < sin v -> prior3d (azzen_x a v r) (azzen_y a v r) (azzen_z a v r)
+                = (iso_logpdf (sin v) + chi3_logpdf r) - (2 * ln r + ln (sin v))) /\
+  (0 < cos v -> prior3d (radec_x a v r) (radec_y a v r) (radec_z a v r)
+                = (iso_logpdf (cos v) + chi3_logpdf r) - (2 * ln r + ln (cos v))).
+Proof. exact prime_prior_sphere. Qed.
+Print Assumptions C07_prime_prior_sphere.
+
+Theorem C07_pp_polar_denotes : forall a r s,
+  evalR [a; r] (pp_polar_uniform (V 1)) = chi2_logpdf r - ln r /\
+  evalR [a; r; s] (pp_polar_sine (V 0) (V 1) (V 2)) = (sine_logpdf (a * s) + chi2_logpdf r) - ln r.
+Proof. intros a r s. split; [exact (pp_polar_uniform_den a r)|exact (pp_polar_sine_den a r s)]. Qed.
+Print Assumptions C07_pp_polar_denotes.
+
+Theorem C07_pp_sphere_denotes : forall a v r,
+  evalR [a; v; r] (pp_sphere true (V 1) (V 2)) = (iso_logpdf (sin v) + chi3_logpdf r) - (2 * ln r + ln (sin v)) /\
+  evalR [a; v; r] (pp_sphere false (V 1) (V 2)) = (iso_logpdf (cos v) + chi3_logpdf r) - (2 * ln r + ln (cos v)).
+Proof. exact pp_sphere_den. Qed.
+Print Assumptions C07_pp_sphere_denotes.
